@@ -67,6 +67,14 @@ Families == <<
   [f |-> "mslist",  pre |-> <<LB>>,   core |-> <<X, LB, IntT(<<48>>), RB>>, post |-> <<RB>>],
   [f |-> "neg",     pre |-> <<MinusT, MinusT>>, core |-> <<X, LB, IntT(<<48>>), RB>>, post |-> <<>>],
   [f |-> "or",      pre |-> <<>>,     core |-> <<X, LB, IntT(<<48>>), RB>>, post |-> <<OrT, X, LB, IntT(<<48>>), RB>>],
+  \* functions that take an expression reference, nested inside each other's reference:
+  \* over a ONE-element array the key of each call is evaluated once, whatever the depth (over k elements
+  \* the nest costs k^depth by its meaning, in the specification as in any implementation)
+  [f |-> "sortbynest", pre |-> <<Id(<<115,111,114,116,95,98,121>>), LP, RootT, Dot, X, LB, Colon, IntT(<<49>>), RB, Comma, AmpT>>, core |-> <<CurT>>, post |-> <<RP, LB, IntT(<<48>>), RB>>],
+  [f |-> "mapnest",    pre |-> <<Id(<<109,97,112>>), LP, AmpT>>, core |-> <<CurT>>, post |-> <<Comma, RootT, Dot, X, LB, Colon, IntT(<<49>>), RB, RP, LB, IntT(<<48>>), RB>>],
+  [f |-> "mixnest",    pre |-> <<Id(<<115,111,114,116,95,98,121>>), LP, RootT, Dot, X, LB, Colon, IntT(<<49>>), RB, Comma, AmpT, Id(<<109,97,112>>), LP, AmpT>>, core |-> <<CurT>>,
+                       post |-> <<Comma, RootT, Dot, X, LB, Colon, IntT(<<49>>), RB, RP, LB, IntT(<<48>>), RB, RP, LB, IntT(<<48>>), RB>>],
+  [f |-> "filternest", pre |-> <<RootT, Dot, X, LB, Colon, IntT(<<49>>), RB, Filt>>, core |-> <<CurT>>, post |-> <<RB, LB, IntT(<<48>>), RB>>],
   \* flat repetitions: the text grows, the syntactic nesting does not
   [f |-> "addneg",  pre |-> <<>>,     core |-> <<X, LB, IntT(<<48>>), RB>>, post |-> <<OrT, MinusT, X, LB, IntT(<<48>>), RB>>],
   [f |-> "ornot",   pre |-> <<>>,     core |-> <<X, LB, IntT(<<48>>), RB>>, post |-> <<OrT, NotT, NotT, X, LB, IntT(<<48>>), RB>>],
@@ -86,7 +94,7 @@ Wrapped == <<
 WText(fm, n) == fm.head \o Rep(fm.pre, n) \o fm.core \o Rep(fm.post, n) \o fm.tail
 FamText(fm, n) == Rep(fm.pre, n) \o fm.core \o Rep(fm.post, n)
 \* families whose meaning does not depend on the depth (for n >= 1)
-Stable == {"paren", "not", "pipe", "neg", "or", "addneg", "ornot", "orparen", "orlist"}
+Stable == {"paren", "not", "pipe", "neg", "or", "addneg", "ornot", "orparen", "orlist", "sortbynest", "mapnest", "mixnest", "filternest"}
 FlatFam == {"or", "addneg", "ornot", "orparen", "orlist", "pipe", "index", "flatten"}
 
 \* families whose value is the repetition count (as text: head rep^n tail)
